@@ -83,3 +83,17 @@ Proof.
   intros Hc Hn Hl. apply (no_history vf2b enum (set_nth gs i g') es qs c).
   apply edit_keeps_inv; auto. intros na h E. rewrite Hn in E. discriminate.
 Qed.
+
+(** custom comparators (the former defect f37bdec): child *-O (order 2) in parent C-O (order 1) with a wildcard node comparator
+    and an accept-all edge comparator — contained, and the filter (now using the same comparators) agrees *)
+Definition aStar : attrs := [(1, 9); (2, 3)]%N.
+Definition gSO : graph := LG [(1, aStar); (2, aO)]%N [(1, 2, [(4, 6)])]%N.
+Lemma wf_gSO : gwf gSO. Proof. apply gwfb_sound. vm_compute. reflexivity. Qed.
+Example ex_custom_comparators :
+  sub_iso has_mono true true (CWild 9) CAny namesEC (Some 4%N) gSO gCO = true /\
+  sub_iso has_mono false true CEq CEq namesEC (Some 4%N) gSO gCO = false /\
+  contained true (nm_subc (CWild 9) namesEC) (em_subc CAny (Some 4%N)) gCO gSO.
+Proof.
+  split; [vm_compute; reflexivity|]. split; [vm_compute; reflexivity|].
+  apply (subgraph_bool has_mono has_mono_contract true true (CWild 9) CAny namesEC (Some 4%N) gSO gCO wf_gSO wf_gCO). vm_compute. reflexivity.
+Qed.
